@@ -32,12 +32,15 @@ pub(super) fn parser() -> impl Parser<StringView, Output = ExpressionPos, Error 
             let s = format!("{}.{}", left, frac_digits.as_str());
             if opt_pound.is_some() {
                 match s.parse::<f64>() {
-                    Ok(f) => Ok(Expression::DoubleLiteral(f)),
+                    // a literal that is too big parses as infinity
+                    Ok(f) if f.is_finite() => Ok(Expression::DoubleLiteral(f)),
+                    Ok(_) => Err(ParserError::Overflow),
                     Err(err) => Err(err.into()),
                 }
             } else {
                 match s.parse::<f32>() {
-                    Ok(f) => Ok(Expression::SingleLiteral(f)),
+                    Ok(f) if f.is_finite() => Ok(Expression::SingleLiteral(f)),
+                    Ok(_) => Err(ParserError::Overflow),
                     Err(err) => Err(err.into()),
                 }
             }
